@@ -68,6 +68,18 @@ def run_binarize(gram, cfg):
     return grammar.binarize(gram, **args)
 
 
+def failed_binarize():
+    """A failed call is part of the history: a grammar with a malformed linearization is rejected somewhere inside
+    binarization (under both reorderings, with and without markovization); nothing of it may show in the next call."""
+    bad_gram = {('S', 'A', 'B', 'C'): {(((0, 0), (2,), (1, 0)),): {('S1', 'ROOT1'): 1}}}
+    for kw in ({'reordering': grammar.reordering_optimal}, {'reordering': grammar.reordering_none},
+               {'reordering': grammar.reordering_optimal, 'markov_opts': {'v': 1, 'h': 1}}):
+        try:
+            grammar.binarize(bad_gram, **kw)
+        except Exception:
+            pass
+
+
 def check_rule(rank, lin, cfg):
     lin = tuple(tuple(tuple(v) for v in arg) for arg in lin)
     func = (LHS,) + tuple('B%d' % i for i in range(rank))
@@ -79,6 +91,8 @@ def check_rule(rank, lin, cfg):
                     'detail': '%s [rule %s %r, mode %r]' % (detail, ' '.join(func), lin, cfg),
                     'what': 'binarize: ' + kind})
     gram = {func: {lin: {(LHS + str(len(lin)), 'ROOT1'): 1}}}
+    if rank % 2 == 1:
+        failed_binarize()
     try:
         result = run_binarize(gram, cfg)
     except Exception as e:
